@@ -5,11 +5,12 @@ CONSTANTS
   Script <- Script_lease
   Times <- Times_lease
   InitDB <- DB_lease
-  Sweeps = {"TimeoutTasks"}
-  MaxSweeps = 1
+  Sweeps = {"TimeoutTasks", "EnqueueTasks"}
+  MaxSweeps = 2
   Delay = 2
   Known = {"F14"}
   F1Fixed = TRUE
+  Parties = 3
 VIEW View
 INVARIANTS
   TypeOK
